@@ -46,7 +46,7 @@ NAN = float("nan")
 
 C01_OPS = ("create", "update", "remove", "setitem", "setitem_delete", "setitem_func", "setobs",
            "add_af", "operate", "operate_list", "apply", "aggregate", "correlator", "expr", "expr_noeq", "rejected",
-           "operate_any", "aggregate_any", "biop", "coll_feature")
+           "operate_any", "aggregate_any", "biop", "coll_feature", "neighbour")
 # operator objects whose values are not modelled: the output column is adopted after the call
 # and everything else (names, widths, other columns, positions, timestamps) must be unchanged
 ANY_UNARY = ("FORWARD_FINITE_DIFF", "BACKWARD_FINITE_DIFF", "CENTERED_FINITE_DIFF", "SECOND_ORDER_FINITE_DIFF",
@@ -66,7 +66,7 @@ ANY_AGG_B = ("COVARIANCE", "CORRELATION", "L0", "L1", "L2", "LINF", "EQUAL")
 DOMAIN_ERRORS = (Exception,)
 C04_OPS = ("add_obs", "sort", "insert_chrono", "insert_at", "remove_list", "remove_obs", "remove_first",
            "remove_last", "extract", "span", "concat", "mod_n", "mod_pattern", "gt", "lt", "set_obs",
-           "fork_reverse", "fork_span", "edit_time", "slice", "pop_obs", "span_track", "sort_radix", "fork_concat", "fork_derived", "fork_simplify", "describe", "remove_by_time", "set_obs_list", "via")
+           "fork_reverse", "fork_span", "edit_time", "slice", "pop_obs", "span_track", "sort_radix", "fork_concat", "fork_derived", "fork_simplify", "describe", "remove_by_time", "set_obs_list", "via", "neighbour4")
 # steps a session may take whose track holds the same Obs object at two positions (the result of
 # t + t and the like, shared by design): everything that neither creates features nor edits an Obs
 DUP_SAFE_OPS = ("sort", "sort_radix", "remove_list", "remove_obs", "remove_first", "remove_last", "pop_obs",
@@ -77,7 +77,7 @@ DUP_SAFE_OPS = ("sort", "sort_radix", "remove_list", "remove_obs", "remove_first
 # produced by the simplifier): the feature computations of C17, and everything that only moves Obs around
 LOOSE_OK_OPS = DUP_SAFE_OPS + ("abs_curv", "speed", "speed_direct", "ds", "remove")
 C17_OPS = ("abs_curv", "speed", "speed_direct", "ds", "transform", "fork_noise", "add_seconds", "speed_smoothed",
-           "coll_speed", "idle", "profile", "find_stops")
+           "coll_speed", "idle", "profile", "find_stops", "neighbour17")
 
 
 def feq(a, b):
@@ -633,6 +633,15 @@ class TrackWorld(World):
                                   "increment_time", "set_order", "loop", "loop", "idle_begin", "idle_begin", "idle_end"]),
                 "delta": r.choice([1, 2, 0.5, 7]), "idle": r.choice([0.5, 5.0, 50.0]), "alias": r.random() < 0.5, "n": r.choice([2, 3, 5, 9]), "to": r.randrange(self.cfg["sessions"]),
                 "tag0": self.rtagc - 300}
+
+    def _g_neighbour(self, r, m):
+        return {"what": r.choice(["bbox", "centroid", "length", "compare_nn", "compare_hausdorff", "track_constraint", "time_constraint", "plot", "first_copy", "coords", "kernel_smooth"]), "other": r.randrange(self.cfg["sessions"])}
+
+    def _g_neighbour4(self, r, m):
+        return self._g_neighbour(r, m)
+
+    def _g_neighbour17(self, r, m):
+        return self._g_neighbour(r, m)
 
     def _g_profile(self, r, m):
         return {"template": r.choice(["SPATIAL_SPEED_PROFIL", "TEMPORAL_SPEED_PROFIL", "SPATIAL_ALTI_PROFIL"]),
@@ -2528,6 +2537,81 @@ class TrackWorld(World):
                               "geometric definition" % (where, name), jsonable(want), jsonable(got))
                     return False
         return True
+
+    def op_neighbour(self, st):
+        """Another module of the library is handed the track to look at (bounding box, centroid, length,
+        comparison with another track, selection constraints, a plot, a copy of its first fix).  What those
+        modules compute is not judged; what they leave on the tracks they were given is: every new
+        feature is taken over (abscissas and speeds held to their definitions), everything else must
+        be as it was.  Objects they hand out belong to the caller, who edits them."""
+        t, m = self._sess(st)
+        n = len(m["obs"])
+        if n < 2 or m.get("dup_obs") or m.get("loose_rows") or "ds" in m["names"]:
+            raise Skip()
+        what = st["what"]
+        o = st.get("other", 0)
+        t2 = self.real.get(o, t)
+        m2 = self.model.get(o, m)
+        if len(m2["obs"]) < 2 or m2.get("dup_obs") or m2.get("loose_rows") or "ds" in m2["names"]:
+            t2, m2 = t, m
+        prop = self.cfg.get("focus") or "C01"
+
+        def run():
+            if what == "bbox":
+                bb = t.bbox()
+                bb.addMargin(0.1)
+                bb.translate(2.0, -1.0)
+            elif what == "centroid":
+                c = t.getCentroid()
+                c.setX(c.getX() + 5.0)
+            elif what == "length":
+                t.length()
+            elif what in ("compare_nn", "compare_hausdorff"):
+                from tracklib.algo import comparison as cmp
+                cmp.compare(t, t2, cmp.MODE_COMPARISON_NN if what == "compare_nn" else cmp.MODE_COMPARISON_HAUSDORFF,
+                            verbose=False)
+            elif what == "track_constraint":
+                from tracklib.algo.selection import TrackConstraint
+                TrackConstraint(t2, buffer=5).contains(t)
+            elif what == "time_constraint":
+                from tracklib.algo.selection import TimeConstraint
+                TimeConstraint(begin=t2.getFirstObs().timestamp, end=t2.getLastObs().timestamp).contains(
+                    t.getFirstObs().timestamp)
+            elif what == "plot":
+                import matplotlib.pyplot as plt
+                try:
+                    t.plot()
+                finally:
+                    plt.close("all")
+            elif what == "first_copy":
+                ob = t.getFirstObs().copy()
+                ob.position.setX(ob.position.getX() + 9.0)
+                ob.timestamp = ob.timestamp.addSec(30)
+            elif what == "coords":
+                xs = t.getX()
+                if len(xs):
+                    xs[0] = xs[0] + 1.0
+            else:
+                from tracklib.core import Operator
+                from tracklib.core.kernel import GaussianKernel
+                t.operate(Operator.FILTER, "x", GaussianKernel(2), "zz_smooth")
+                t.removeAnalyticalFeature("zz_smooth")
+        _, exc = self.call(run)
+        if exc is not None and not isinstance(exc, Exception):
+            return self._unexpected(prop, exc, "neighbouring module (%s)" % what)
+        self.probe("track_handed_to_another_module")
+        for tt, mm in ((t, m),) + (((t2, m2),) if t2 is not t else ()):
+            if not self._adopt_side_features(tt, mm, "neighbouring module (%s)" % what):
+                return
+        self._check_all(prop, "neighbouring module (%s): the tracks it was given keep their positions, timestamps "
+                        "and features" % what)
+        self.observed([what, None if exc is None else type(exc).__name__])
+
+    def op_neighbour4(self, st):
+        return self.op_neighbour(st)
+
+    def op_neighbour17(self, st):
+        return self.op_neighbour(st)
 
     def op_profile(self, st):
         """Track.plotProfil (matplotlib, off-screen): a read-only user of abscissas and speeds.  A request
